@@ -1318,6 +1318,9 @@ class Exec:
             name = clo.text.replace('ZeroSized: ', '').strip()
             c2 = Call(name, list(args), call.retty if False else '', call.span, call.fn, call.depth, call.frame, None)
             return self.dispatch(p, c2, k)
+        if isinstance(clo, Agg) and clo.variant and not clo.fields and clo.kind not in ('tuple', 'array') and len(args) >= 1:
+            # an enum variant constructor used as a function (`.map(Ok)`, `.map(Some)`)
+            return k(p, Agg(clo.name, clo.variant, tuple(args), clo.kind))
         f = self.closure_fn(clo)
         if f is None or call.depth >= self.max_depth + 2:
             name = f'closure({vname(clo)})({",".join(vname(a) for a in args)})'
